@@ -157,7 +157,8 @@ def executeRequestS (s : SchemaD) (doc : Doc) (vars : Vars) (w : World) (opname 
     match rootType s op.kind with
     | none => .abort "operation"
     | some root =>
-      if op.kind == "subscription" then .failed (.internal "RuntimeError")
+      -- `execute` raises InvalidOperationError for subscriptions (fix X5): reported as a response error
+      if op.kind == "subscription" then .abort "operation"
       else
         match executeSelectionSetS s doc vars w cf fuel root [] op.sels with
         | .ok (d, es) => .result d es
